@@ -333,7 +333,8 @@ def harness_listing(sym):
         listed = _contains_mark(val, t)
         if len(reqs[i]) > 0 and not any(r in reqs[i] for r in user_roles):
             sym.check(not listed, f"inaccessible-target-listed|route={key}", f"{shape}: {t} appears in the listing")
-        elif len(reqs[i]) == 0:
+        elif len(reqs[i]) == 0 and (t != OFFLINE_UNIT or ("get_recent_engines",) in w.repo_calls):
+            # (an offline unit is only expected in listings that consult the recent-engine table)
             sym.check(listed, f"open-target-not-listed|route={key}", f"{shape}: {t} is missing from the listing")
         else:
             sym.reach()
